@@ -250,13 +250,13 @@ Definition era_ok (doe : Z) : bool :=
   && (d <=? days_in m (yoe + (if m <=? 2 then 1 else 0)))
   && (dfc_local yoe m d =? doe).
 
-Definition era_sweep : bool :=
+Definition sweep_of (P : Z -> bool) : bool :=
   forallb (fun i => forallb (fun j => let doe := 1000 * i + j in
-                                      if doe <? 146097 then era_ok doe else true)
+                                      if doe <? 146097 then P doe else true)
                             (nat_seq_Z 1000 0))
           (nat_seq_Z 147 0).
 
-Lemma era_sweep_true : era_sweep = true.
+Lemma era_sweep_true : sweep_of era_ok = true.
 Proof. vm_cast_no_check (eq_refl true). Qed.
 
 Lemma In_nat_seq_Z : forall n s z, s <= z < s + Z.of_nat n -> In z (nat_seq_Z n s).
@@ -266,9 +266,11 @@ Proof.
   right. apply IH. lia.
 Qed.
 
-Lemma era_all : forall doe, 0 <= doe < 146097 -> era_ok doe = true.
+(* lifting a two-level sweep over 147 x 1000 to every day of the era *)
+Lemma sweep_lift : forall P : Z -> bool, sweep_of P = true ->
+  forall doe, 0 <= doe < 146097 -> P doe = true.
 Proof.
-  intros doe H. pose proof era_sweep_true as S. unfold era_sweep in S.
+  intros P S doe H. unfold sweep_of in S.
   rewrite forallb_forall in S.
   assert (Hi : In (doe / 1000) (nat_seq_Z 147 0)).
   { apply In_nat_seq_Z. change (Z.of_nat 147) with 147. Z.to_euclidean_division_equations; lia. }
@@ -280,6 +282,9 @@ Proof.
     by (Z.to_euclidean_division_equations; lia).
   destruct (doe <? 146097) eqn:E; [exact S|lia].
 Qed.
+
+Lemma era_all : forall doe, 0 <= doe < 146097 -> era_ok doe = true.
+Proof. exact (sweep_lift era_ok era_sweep_true). Qed.
 
 Lemma is_leap_era : forall y e, is_leap (y + 400 * e) = is_leap y.
 Proof.
@@ -318,3 +323,207 @@ Proof.
   - replace (yoe + era * 400 + c) with ((yoe + c) + 400 * era) by lia.
     rewrite days_in_era. lia.
 Qed.
+
+(* ------------------------------------------------------------------ RFC 3339 *)
+Lemma digit_dig : forall n, digit (dig n) = Some (n mod 10).
+Proof.
+  intros n. unfold digit, dig.
+  assert (R : 0 <= n mod 10 < 10) by (apply Z.mod_pos_bound; lia).
+  set (r := n mod 10) in *. clearbody r.
+  destruct ((48 <=? Z.to_N (48 + r))%N && (Z.to_N (48 + r) <=? 57)%N) eqn:E.
+  - f_equal. rewrite Z2N.id by lia. lia.
+  - apply andb_false_iff in E. destruct E as [E|E]; apply N.leb_gt in E; lia.
+Qed.
+
+Lemma num2_digits2 : forall n, 0 <= n < 100 ->
+  num2 (dig (n / 10)) (dig n) = Some n.
+Proof.
+  intros n H. unfold num2. rewrite !digit_dig. f_equal.
+  Z.to_euclidean_division_equations; lia.
+Qed.
+
+Lemma num4_digits4 : forall n, 0 <= n < 10000 ->
+  num4 (dig (n / 1000)) (dig (n / 100)) (dig (n / 10)) (dig n) = Some n.
+Proof.
+  intros n H. unfold num4, num2. rewrite !digit_dig. f_equal.
+  Z.to_euclidean_division_equations; lia.
+Qed.
+
+Lemma in_range_some : forall lo hi x, lo <= x <= hi -> in_range lo hi (Some x) = Some x.
+Proof. intros lo hi x H. unfold in_range. destruct ((lo <=? x) && (x <=? hi)) eqn:E; [reflexivity|lia]. Qed.
+
+(* a text that does not start with a digit ends the fraction *)
+Definition no_digit_head (s : bytes) : Prop :=
+  match s with [] => True | c :: _ => digit c = None end.
+
+Lemma parse_frac_stop : forall k s acc, no_digit_head s -> parse_frac k s acc = (acc, s).
+Proof.
+  intros k s acc H. destruct s as [|c r]; [destruct k; reflexivity|].
+  cbn in H. destruct k; cbn [parse_frac]; rewrite H; reflexivity.
+Qed.
+
+Lemma parse_frac_digits : forall k v rest acc,
+  0 < v < 10 ^ Z.of_nat k -> no_digit_head rest ->
+  parse_frac k (frac_digits k v ++ rest) acc = (acc + v, rest).
+Proof.
+  induction k as [|k IH]; intros v rest acc Hv Hrest.
+  - cbn in Hv. lia.
+  - cbn [frac_digits]. set (p := 10 ^ Z.of_nat k).
+    assert (Hp : 0 < p) by (apply Z.pow_pos_nonneg; lia).
+    assert (Hv' : v < 10 * p).
+    { unfold p. rewrite <- Z.pow_succ_r by lia. rewrite <- Nat2Z.inj_succ. apply Hv. }
+    assert (Hd : 0 <= v / p < 10).
+    { split; [apply Z.div_pos; lia|apply Z.div_lt_upper_bound; lia]. }
+    pose proof (Z.div_mod v p ltac:(lia)) as DM.
+    pose proof (Z.mod_pos_bound v p Hp) as MB.
+    cbn [app parse_frac]. rewrite digit_dig. rewrite (Z.mod_small (v / p) 10) by lia.
+    fold p.
+    destruct (v mod p =? 0) eqn:E.
+    + cbn [app]. rewrite parse_frac_stop by exact Hrest. f_equal. nia.
+    + rewrite IH by (try exact Hrest; fold p; lia). f_equal. nia.
+Qed.
+
+Lemma parse_zone_print : forall off, -1440 < off < 1440 -> parse_zone (print_zone off) = Some off.
+Proof.
+  intros off H. unfold print_zone.
+  destruct (off =? 0) eqn:E0; [apply Z.eqb_eq in E0; subst off; reflexivity|].
+  assert (Ha : 0 < Z.abs off < 1440) by lia.
+  assert (H1 : 0 <= Z.abs off / 60 <= 23) by (Z.to_euclidean_division_equations; lia).
+  assert (H2 : 0 <= Z.abs off mod 60 <= 59) by (Z.to_euclidean_division_equations; lia).
+  unfold digits2. cbn [app parse_zone].
+  destruct (off <? 0) eqn:En.
+  - rewrite !num2_digits2 by lia. rewrite !in_range_some by lia.
+    cbn. f_equal. Z.to_euclidean_division_equations; lia.
+  - rewrite !num2_digits2 by lia. rewrite !in_range_some by lia.
+    cbn. f_equal. Z.to_euclidean_division_equations; lia.
+Qed.
+
+Lemma print_zone_no_digit : forall off, no_digit_head (print_zone off).
+Proof.
+  intros off. unfold print_zone.
+  destruct (off =? 0); [reflexivity|]. destruct (off <? 0); reflexivity.
+Qed.
+
+Lemma print_zone_head : forall off, exists c r, print_zone off = c :: r /\ (c =? 46)%N = false.
+Proof.
+  intros off. unfold print_zone.
+  destruct (off =? 0); [eexists; eexists; split; reflexivity|].
+  destruct (off <? 0); eexists; eexists; split; reflexivity.
+Qed.
+
+Lemma frac_digits_S : forall k v, frac_digits (S k) v =
+  dig (v / 10 ^ Z.of_nat k) :: (if v mod 10 ^ Z.of_nat k =? 0 then [] else frac_digits k (v mod 10 ^ Z.of_nat k)).
+Proof. reflexivity. Qed.
+
+(* the optional fraction, as rfc3339_parse reads it *)
+Definition frac_section (rest : bytes) : Z * bytes :=
+  match rest with
+  | p :: c :: r => if (p =? 46)%N && (match digit c with Some _ => true | None => false end)
+                   then parse_frac 9 (c :: r) 0 else (0, rest)
+  | _ => (0, rest)
+  end.
+
+Lemma frac_section_print : forall ns off, 0 <= ns < 1000000000 ->
+  frac_section (print_frac ns ++ print_zone off) = (ns, print_zone off).
+Proof.
+  intros ns off H. unfold print_frac. destruct (ns =? 0) eqn:E.
+  - apply Z.eqb_eq in E. subst ns. cbn [app].
+    destruct (print_zone_head off) as (c & r & Hz & Hc). rewrite Hz. unfold frac_section.
+    destruct r as [|c2 r]; [reflexivity|]. rewrite Hc. reflexivity.
+  - assert (Hns : 0 < ns < 10 ^ Z.of_nat 9) by (change (10 ^ Z.of_nat 9) with 1000000000; lia).
+    pose proof (parse_frac_digits 9 ns (print_zone off) 0 Hns (print_zone_no_digit off)) as PF.
+    destruct (frac_digits 9 ns) as [|c tl] eqn:FD.
+    + change 9%nat with (S 8) in FD. rewrite frac_digits_S in FD. discriminate.
+    + assert (Hc : exists x, digit c = Some x).
+      { change 9%nat with (S 8) in FD. rewrite frac_digits_S in FD. inversion FD.
+        eexists. apply digit_dig. }
+      destruct Hc as [x Hx].
+      cbn [app] in *. unfold frac_section. rewrite N.eqb_refl, Hx. cbn [andb].
+      rewrite PF. reflexivity.
+Qed.
+
+Lemma days_in_le_31 : forall m y, days_in m y <= 31.
+Proof.
+  intros m y. unfold days_in.
+  destruct (m =? 2); [destruct (is_leap y); lia|].
+  destruct ((m =? 4) || (m =? 6) || (m =? 9) || (m =? 11)); lia.
+Qed.
+
+Lemma rfc3339_parse_frac_section : forall y0 y1 y2 y3 c1 m0 m1 c2 d0 d1 ct h0 h1 c3 i0 i1 c4 s0 s1 rest,
+  rfc3339_parse (y0 :: y1 :: y2 :: y3 :: c1 :: m0 :: m1 :: c2 :: d0 :: d1 :: ct
+                 :: h0 :: h1 :: c3 :: i0 :: i1 :: c4 :: s0 :: s1 :: rest) =
+  match in_range 0 9999 (num4 y0 y1 y2 y3), in_range 1 12 (num2 m0 m1) with
+  | Some y, Some m =>
+      match in_range 1 (days_in m y) (num2 d0 d1), in_range 0 23 (num2 h0 h1),
+            in_range 0 59 (num2 i0 i1), in_range 0 59 (num2 s0 s1) with
+      | Some d, Some hh, Some mi, Some ss =>
+          if ((c1 =? 45) && (c2 =? 45) && (ct =? 84) && (c3 =? 58) && (c4 =? 58))%N then
+            let '(ns, rest') := frac_section rest in
+            match parse_zone rest' with
+            | Some off =>
+                Some ((days_from_civil y m d * 86400 + hh * 3600 + mi * 60 + ss - off * 60, ns), off)
+            | None => None
+            end
+          else None
+      | _, _, _, _ => None
+      end
+  | _, _ => None
+  end.
+Proof. reflexivity. Qed.
+
+Lemma parse_assembled : forall y m d hh mi ss ns off,
+  0 <= y <= 9999 -> 1 <= m <= 12 -> 1 <= d <= days_in m y ->
+  0 <= hh <= 23 -> 0 <= mi <= 59 -> 0 <= ss <= 59 ->
+  0 <= ns < 1000000000 -> -1440 < off < 1440 ->
+  rfc3339_parse (digits4 y ++ [45%N] ++ digits2 m ++ [45%N] ++ digits2 d ++ [84%N]
+                 ++ digits2 hh ++ [58%N] ++ digits2 mi ++ [58%N]
+                 ++ digits2 ss ++ print_frac ns ++ print_zone off)
+  = Some ((days_from_civil y m d * 86400 + hh * 3600 + mi * 60 + ss - off * 60, ns), off).
+Proof.
+  intros y m d hh mi ss ns off Hy Hm Hd Hh Hi Hs Hns Hoff.
+  pose proof (days_in_le_31 m y) as D31.
+  unfold digits4, digits2. cbn [app]. rewrite rfc3339_parse_frac_section.
+  rewrite num4_digits4 by lia. rewrite !num2_digits2 by lia.
+  rewrite !in_range_some by lia.
+  rewrite !N.eqb_refl. cbn [andb].
+  rewrite frac_section_print by lia.
+  rewrite parse_zone_print by lia. reflexivity.
+Qed.
+
+(* DATE(render(t)) = t: an RFC 3339 rendering of an instant whose year (as
+   shown in the zone of the rendering) is 1..9999 parses back to the instant
+   and to the zone offset *)
+Theorem rfc3339_roundtrip : forall t off, rfc3339_guard t off = true ->
+  exists s, rfc3339_print t off = Some s /\ rfc3339_parse s = Some (t, off).
+Proof.
+  intros [sec ns] off G. unfold rfc3339_guard, rfc3339_print in *. cbn [fst snd] in *.
+  set (loc := sec + off * 60) in *.
+  set (days := loc / 86400) in *. set (sod := loc mod 86400).
+  pose proof (civil_roundtrip days) as C.
+  destruct (civil_from_days days) as [[y m] d].
+  destruct C as (C1 & C2 & C3).
+  unfold inst_normb in G. cbn [snd] in G.
+  assert (Gy : 1 <= y <= 9999) by lia.
+  assert (Goff : -1440 < off < 1440) by lia.
+  assert (Gns : 0 <= ns < 1000000000) by lia.
+  destruct ((0 <=? y) && (y <=? 9999)) eqn:E; [|lia].
+  eexists. split; [reflexivity|].
+  assert (Hsod : 0 <= sod < 86400) by (unfold sod; apply Z.mod_pos_bound; lia).
+  rewrite parse_assembled;
+    try lia; try (Z.to_euclidean_division_equations; lia).
+  rewrite C1.
+  assert (Hloc : loc = days * 86400 + sod) by (unfold days, sod; Z.to_euclidean_division_equations; lia).
+  assert (Hl : loc = sec + off * 60) by reflexivity.
+  clearbody sod days loc.
+  assert (X : days * 86400 + sod / 3600 * 3600 + sod mod 3600 / 60 * 60 + sod mod 60 - off * 60 = sec)
+    by (Z.to_euclidean_division_equations; lia).
+  rewrite X. reflexivity.
+Qed.
+
+Lemma rfc3339_examples :
+  rfc3339_print (951827696, 120000000) (-120) = Some (bs "2000-02-29T10:34:56.12-02:00")
+  /\ rfc3339_print (-62135596800, 0) 0 = Some (bs "0001-01-01T00:00:00Z")
+  /\ rfc3339_print (253402300799, 999999999) 0 = Some (bs "9999-12-31T23:59:59.999999999Z")
+  /\ rfc3339_parse (bs "2000-02-30T00:00:00Z") = None
+  /\ rfc3339_print (253402300800, 0) 0 = None.
+Proof. repeat split; vm_compute; reflexivity. Qed.
